@@ -73,4 +73,43 @@ theorem addToDefs_members (kids : List Node) (el : Node) (n : Node) :
         · left; exact hm
         · right; right; exact hm
 
+/-- the ids carried by a list of nodes, in order -/
+def idsL (l : List Node) : List String := l.filterMap (fun n => n.getAttr "id")
+
+theorem idsL_append (a b : List Node) : idsL (a ++ b) = idsL a ++ idsL b := by
+  simp [idsL, List.filterMap_append]
+
+/-- C08 (defs stay duplicate-free): inserting an element whose id is not yet among the ids in defs keeps the ids in
+    defs pairwise distinct — wherever the sorted-insert puts it -/
+theorem addToDefs_ids_nodup (kids : List Node) (el : Node) (nid : String)
+    (hid : el.getAttr "id" = some nid)
+    (hnd : (idsL (kids.filter Node.isLxmlNode)).Nodup) (hfresh : nid ∉ idsL (kids.filter Node.isLxmlNode)) :
+    (idsL (addToDefs kids el)).Nodup := by
+  unfold addToDefs
+  simp only [hid]
+  generalize hat : ((List.find? _ _).map _).getD 0 = at_
+  generalize hE : kids.filter Node.isLxmlNode = E at *
+  have hsplit : idsL E = idsL (E.take at_) ++ idsL (E.drop at_) := by
+    rw [← idsL_append, List.take_append_drop]
+  rw [idsL_append, idsL_append]
+  have hel : idsL [el] = [nid] := by simp [idsL, hid]
+  rw [hel]
+  rw [hsplit] at hnd hfresh
+  simp only [List.mem_append, not_or] at hfresh
+  rw [List.nodup_append] at hnd ⊢
+  refine ⟨?_, hnd.2.1, ?_⟩
+  · rw [List.nodup_append]
+    refine ⟨hnd.1, by simp, ?_⟩
+    intro a ha b hb
+    simp only [List.mem_singleton] at hb
+    subst hb
+    exact fun e => hfresh.1 (e ▸ ha)
+  · intro a ha b hb
+    simp only [List.mem_append, List.mem_singleton] at ha
+    rcases ha with ha | ha
+    · exact hnd.2.2 a ha b hb
+    · subst ha
+      exact fun e => hfresh.2 (e ▸ hb)
+
+
 end PicoSVG.C08
